@@ -99,6 +99,7 @@ class StereoCondensedReactionGraph(StereoMolGraph, CondensedReactionGraph):
                     stereo=True,
                     stereo_change=True,
                     subgraph=False,
+                    bond_change=True,
                 )
             )
 
